@@ -78,11 +78,10 @@ macro "post_leaf" : tactic => `(tactic| with_reducible (first
 syntax "post_auto" ("[" term,* "]")? : tactic
 macro_rules
   | `(tactic| post_auto) =>
-    `(tactic| repeat' (first | post_leaf | with_reducible apply post_bind_ns | intro _ | split))
+    `(tactic| repeat' (first | post_leaf | (with_reducible apply post_bind_ns) | intro _ | split | (simp only [])))
   | `(tactic| post_auto [$ts,*]) => do
     let alts ← ts.getElems.mapM fun t => `(tactic| apply $t)
-    `(tactic| repeat' (first | post_leaf | with_reducible (first $[| $alts:tactic]*)
-        | with_reducible apply post_bind_ns | intro _ | split))
+    `(tactic| repeat' (first | post_leaf | (with_reducible (first $[| $alts:tactic]*)) | (with_reducible apply post_bind_ns) | intro _ | split | (simp only [])))
 
 /-- invariant rule for `goLoop`: every iteration keeps `I`, advances the cursor and runs only below `bound` -/
 theorem goLoop_post {σ} (cond : σ → Bool) (cursor : σ → Nat) (body : σ → R σ) (I : σ → Prop) (bound : Nat)
